@@ -100,6 +100,8 @@ theorem iso_localModes (j : Nat) (c : Cfg) : KeepsIso j (localModes c) := iso_ge
 macro_rules | `(tactic| iso_leaf) => `(tactic| exact iso_localModes _ _)
 theorem iso_publish (j : Nat) (c : Cfg) : KeepsIso j (publish c) := by unfold publish; iso_auto
 macro_rules | `(tactic| iso_leaf) => `(tactic| exact iso_publish _ _)
+theorem iso_askNat (j : Nat) (q : Query) : KeepsIso j (askNat q) := by unfold askNat; iso_auto
+macro_rules | `(tactic| iso_leaf) => `(tactic| exact iso_askNat _ _)
 theorem iso_ask (j : Nat) (q : Query) : KeepsIso j (ask q) := by unfold ask; iso_auto
 macro_rules | `(tactic| iso_leaf) => `(tactic| exact iso_ask _ _)
 theorem iso_masterFailJobs (j : Nat) : KeepsIso j masterFailJobs := by unfold masterFailJobs; iso_auto
@@ -254,7 +256,7 @@ theorem iso_handle (j : Nat) (c : Cfg) (op : Op) : KeepsIso j (handle c op) := b
   | endSync m => exact iso_endSync j c m
 
 /-- one operation (errors included, any oracle stream) keeps an ISOLATED peer ISOLATED -/
-theorem stepOp_iso (j : Nat) (c : Cfg) (s : St) (now : Nat) (op : Op) (orc : List (Query × Bool)) (h : peerIso j s) :
+theorem stepOp_iso (j : Nat) (c : Cfg) (s : St) (now : Nat) (op : Op) (orc : List (Query × Nat)) (h : peerIso j s) :
     peerIso j (stepOp c s now op orc).1 := by
   unfold stepOp
   cases hr : (handle c op).run { s with now := now, out := [], oracle := orc, oracleBad := 0 } with
